@@ -97,6 +97,9 @@ def invalid_cases(seed):
                 (tool, "key-too-short", b + ["-k", good[:2 * (bb - 1)], "IN", "OUT"]),
                 (tool, "key-too-long", b + ["-k", "ab" * (maxk + 1), "IN", "OUT"]),
                 (tool, "bad-block-size", ["-b", rng.choice(["32", "256", "abc", "0"]), "-k", good, "IN", "OUT"]),
+                # a legal size followed or preceded by something else, or a number that only equals 64/128 after truncation
+                (tool, "bad-block-size-trailing-garbage", ["-b", rng.choice(["64x", "128bit", "64,128", "12864", "64.0", "128 64"]), "-k", good, "IN", "OUT"]),
+                (tool, "bad-block-size-wraps-to-legal", ["-b", rng.choice(["4294967360", "4294967424", "18446744073709551680", "-4294967232"]), "-k", good, "IN", "OUT"]),
                 (tool, "missing-output-name", b + ["-k", good, "IN"]),
                 (tool, "missing-both-names", b + ["-k", good]),
                 (tool, "unknown-option", b + ["-k", good, "-x", "IN", "OUT"]),
@@ -132,6 +135,8 @@ def run(out):
             rng = random.Random(c["seed"])
             pfx = os.path.join(wd, "c20-%s-%d" % (vname.replace("+", "_"), i))
             inp, outp, exp, expm, back = pfx + ".in", pfx + ".out", pfx + ".exp", pfx + ".expm", pfx + ".back"
+            if rng.random() < 0.12:       # input and output names that differ only in letter case are different files here
+                inp, outp = pfx + ".Data.BIN", pfx + ".data.bin"
             data = rng.randbytes(c["len"]) if rng.random() < 0.9 else bytes(c["len"])
             with open(inp, "wb") as f:
                 f.write(data)
